@@ -29,7 +29,9 @@ type index struct {
 	Keys   []types.String
 	Unique bool
 	Filter func(types.Map) bool
-	nodes  *btree.BTreeG[*node]
+	// Implied reports whether every document that holds the given fields with the given values satisfies Filter.
+	Implied func(types.Map) bool
+	nodes   *btree.BTreeG[*node]
 }
 
 type entry struct {
